@@ -24,6 +24,18 @@ def force_backend(it, which):
             it.store(Ptr(r.r, 0), Poly.const(1 if which in g else 0), 1); n += 1
     if n == 0: raise ir.Unsupported("no cpufeatures storage found: this configuration has no run-time dispatch")
 
+def lemma_failure(rec, e, cfg, replay_kind, replay_points=1):
+    """a table lemma or a look-up range failed in the model (TableLemmaFailed / DigitOutOfRange): a statement about the model's side conditions, so it
+    is reported as a violation only if structured concrete scalars give a wrong result on the natively built code; otherwise exit 2"""
+    rec["why"] = "%s: %s" % (type(e).__name__, e)
+    if replay_kind:
+        tags = {"vartime_double": ["a", "b"], "vartime_multiscalar": ["s%d" % i for i in range(replay_points)], "multiscalar": ["s%d" % i for i in range(replay_points)], "precomputed": ["t0", "u0"]}.get(replay_kind, ["s"])
+        ok, det = native_replay(cfg, replay_kind, {}, {(t, "naf5"): dict(vars=[], weights=[]) for t in tags}, max(replay_points, 2))
+        rec["replay"] = det
+        if ok is True: rec["status"] = "violation"; rec["reproduced"] = True
+        else: rec["status"] = "inconclusive"; rec["why"] += " | not reproduced natively: " + str(det)[:200]
+    else: rec["status"] = "inconclusive"; rec["why"] += " | no native replay for this entry point"
+
 def g_harness(rep, cfg, modpath, name, fn, body, bounds, backend=None, replay_kind=None, replay_points=1):
     """body(it) -> (result G, expected G, notes) ; equality of linear forms decided as QF_LIA over the digits"""
     t0 = time.time()
@@ -70,7 +82,7 @@ def g_harness(rep, cfg, modpath, name, fn, body, bounds, backend=None, replay_ki
             status = "inconclusive"; rec["why"] = "digit-level counterexample not reproduced natively (%s): %s" % (rec["replay"], rec["why"][:200])
         rec["status"] = status
     except (TableLemmaFailed, DigitOutOfRange) as e:
-        rec["status"] = "violation"; rec["why"] = "%s: %s" % (type(e).__name__, e)
+        lemma_failure(rec, e, cfg, replay_kind, replay_points)
     except ir.Unsupported as e:
         rec["status"] = "inconclusive"; rec["why"] = "unsupported IR: " + str(e)
     except PanicReached as e:
@@ -105,10 +117,8 @@ def g_paths_harness(rep, cfg, modpath, name, fn, body, bounds, backend=None, win
                 v = used[i]
                 cc = c if v else c_not(c)
                 it_.ctx.assume.append(cc)
-                # a decided (dis)equality with zero of a single digit fixes that digit for the rest of the path
-                if c.k == "cmp" and c.a[0] in ("ne", "eq") and c.a[2].is_zero():
-                    sv = it_._single_var(it_.ctx.resolve(c.a[1]))
-                    if sv is not None and sv[2] == 0 and ((c.a[0] == "ne") != bool(v)): it_.ctx.bounds[sv[0]] = (0, 0)
+                # a decided comparison of a single digit with a constant narrows that digit's range for the rest of the path
+                it_.refine_by_decision(c, bool(v))
                 return ins[3] if v else ins[4]
             it.allow_symbolic_branch = brancher
             res, exp, notes = body(it)
@@ -147,7 +157,7 @@ def g_paths_harness(rep, cfg, modpath, name, fn, body, bounds, backend=None, win
         rec["goals"].append(dict(goal="all %d paths: result == expected for every base point (%d three-way digit matches merged)" % (npaths, merges), verdict="unsat" if status == "ok" else ("sat" if status == "violation" else "unknown"), solver_s=0.0, cases=npaths, solver_calls=0, kind="summary"))
         rec["status"] = status
     except (TableLemmaFailed, DigitOutOfRange) as e:
-        rec["status"] = "violation"; rec["why"] = "%s: %s" % (type(e).__name__, e)
+        lemma_failure(rec, e, cfg, replay_kind, replay_points)
     except ir.Unsupported as e:
         rec["status"] = "inconclusive"; rec["why"] = "unsupported IR: " + str(e)[:500]
     except PanicReached as e:
@@ -317,7 +327,7 @@ def pippenger_harness(rep, cfg, modpath, name, hook, n, nsym, bounds, backend=No
             status = "inconclusive"; rec["why"] = "forced backend %s but the vector Pippenger was not executed" % backend
         rec["status"] = status
     except (TableLemmaFailed, DigitOutOfRange) as e:
-        rec["status"] = "violation"; rec["why"] = "%s: %s" % (type(e).__name__, e)
+        lemma_failure(rec, e, cfg, "multiscalar" if n <= 3 else None, n)
     except ir.Unsupported as e:
         rec["status"] = "inconclusive"; rec["why"] = "unsupported IR: " + str(e)[:400]
     except PanicReached as e:
